@@ -134,7 +134,7 @@ impl<'a> World<'a> {
             ops.push(NetOp::Deliver { dir: 1, pick: 0 });
         }
         for i in 0..3u32 {
-            ops.push(NetOp::Send { ep: 0, vital: i != 1, len: 8 + 40 * i as u16, fill: i as u8, tag: 9000 + i });
+            ops.push(NetOp::Send { ep: 0, vital: i != 1, len: 8 + 40 * i, fill: i as u8, tag: 9000 + i });
         }
         ops.push(NetOp::Flush { ep: 0 });
         ops.push(NetOp::Deliver { dir: 0, pick: 0 });
@@ -339,6 +339,247 @@ impl<'a> World<'a> {
             }
         };
         Some(d)
+    }
+
+    /// C04: a datagram that carries the token `ep` expects (or, where no token is
+    /// fixed yet, any plausible one). Authenticated garbage is still a valid input
+    /// of `feed`: no panic, and whatever is sent in response passes the wire tap.
+    /// From here on the delivery model of the session is void (`forged`).
+    pub(super) fn forge(&mut self, ctx: &mut Ctx, ep: usize, kind: u8, salt: u64) -> Option<Violation> {
+        if self.s[ep].closed || self.prop != NetProp::C04 {
+            return None;
+        }
+        // roles stay what the tap expects: the connecting side is only attacked once it has connected
+        if ep == 0 && !self.s[0].called_connect {
+            return None;
+        }
+        let proto = self.cfg.proto;
+        let v7 = proto.is_v7();
+        let mut r = Prng::new(mix(self.cfg.seed, salt, 0x66_6f_72));
+        let peer = 1 - ep;
+        let tok: Option<[u8; 4]> = match self.s[ep].conn.expected_token() {
+            Some(t) => Some(t),
+            None => {
+                if v7 {
+                    Some(if r.chance(1, 2) { [0xff; 4] } else { let b = r.bytes(4); [b[0], b[1], b[2], b[3]] })
+                } else if proto == Proto::V6Token && r.chance(1, 2) {
+                    let b = r.bytes(4);
+                    Some([b[0], b[1], b[2], b[3]])
+                } else {
+                    None
+                }
+            }
+        };
+        let seq_near = |w: &World, r: &mut Prng| -> u16 {
+            match r.below(4) {
+                0 => ((w.s[peer].delivered + 1) % 1024) as u16,
+                1 => ((w.s[peer].delivered + r.usize_below(4)) % 1024) as u16,
+                2 => *r.pick(&[0u16, 1, 511, 512, 513, 1022, 1023]),
+                _ => r.below(1024) as u16,
+            }
+        };
+        let ack_any = |w: &World, r: &mut Prng| -> u16 {
+            match r.below(4) {
+                0 => (w.s[ep].sub_vital.len() % 1024) as u16,
+                1 => ((w.s[ep].sub_vital.len() + 1024 - r.usize_below(6)) % 1024) as u16,
+                2 => ((w.s[ep].sub_vital.len() + 1 + r.usize_below(6)) % 1024) as u16,
+                _ => r.below(1024) as u16,
+            }
+        };
+        let kind = kind % 8;
+        ctx.count(match kind {
+            0 => "probe_forge_control",
+            1 => "probe_forge_chunks",
+            2 => "probe_forge_mutated_inflight",
+            3 => "probe_forge_truncated_inflight",
+            4 => "probe_forge_random_body",
+            5 => "probe_forge_connless",
+            6 => "probe_forge_reflected",
+            _ => "probe_forge_count_mismatch",
+        });
+        let inflight = |w: &World, r: &mut Prng, dir: usize| -> Option<Vec<u8>> {
+            let q = &w.wire[dir];
+            if q.is_empty() {
+                None
+            } else {
+                Some(q[r.usize_below(q.len())].bytes.clone())
+            }
+        };
+        let d: Vec<u8> = match kind {
+            0 => {
+                let ack = ack_any(self, &mut r);
+                if v7 {
+                    let which = *r.pick(&[0u8, 1, 2, 3, 4, 5, 6, 255]);
+                    let mut body = vec![which];
+                    match which {
+                        1 | 5 => body.extend_from_slice(&r.bytes(4)),
+                        4 => {
+                            if r.chance(1, 2) {
+                                let n = r.usize_below(140);
+                                body.extend((0..n).map(|_| 1 + r.below(255) as u8));
+                                if r.chance(3, 4) {
+                                    body.push(0);
+                                }
+                            }
+                        }
+                        _ => {}
+                    }
+                    if which == 5 && r.chance(1, 2) {
+                        body.resize(512 + r.usize_below(3), 0);
+                    }
+                    if r.chance(1, 6) {
+                        let n = r.usize_below(20);
+                        body.extend_from_slice(&r.bytes(n));
+                    }
+                    v7_make(1 | if r.chance(1, 5) { 2 } else { 0 }, ack, r.below(3) as u8, tok.unwrap(), &body, r.chance(1, 5))
+                } else {
+                    let which = *r.pick(&[0u8, 1, 2, 3, 4, 5, 255]);
+                    let mut body = vec![which];
+                    if (which == 1 || which == 2) && r.chance(2, 3) {
+                        body.extend_from_slice(b"TKEN");
+                        if r.chance(1, 2) {
+                            body.extend_from_slice(&r.bytes(4));
+                        }
+                    }
+                    if which == 4 && r.chance(1, 2) {
+                        let n = r.usize_below(140);
+                        body.extend((0..n).map(|_| 1 + r.below(255) as u8));
+                        if r.chance(3, 4) {
+                            body.push(0);
+                        }
+                    }
+                    if r.chance(1, 6) {
+                        let n = r.usize_below(20);
+                        body.extend_from_slice(&r.bytes(n));
+                    }
+                    v6_make(1 | if r.chance(1, 5) { 4 } else { 0 }, ack, r.below(3) as u8, &body, tok, r.chance(1, 5))
+                }
+            }
+            1 | 7 => {
+                let n = r.usize_below(6);
+                let mut body: Vec<u8> = Vec::new();
+                let first = seq_near(self, &mut r);
+                for i in 0..n {
+                    let len = *r.pick(&[0usize, 1, 5, 30, 200, 1000]);
+                    let len = r.usize_below(len + 1);
+                    let data = r.bytes(len);
+                    let vital = if r.chance(3, 4) { Some(((first as usize + i) as u16 % 1024, r.chance(1, 3))) } else { None };
+                    let mut tmp: Vec<u8> = Vec::with_capacity(1100);
+                    if v7 {
+                        let _ = p7::write_chunk(&data, vital, &mut tmp);
+                    } else {
+                        let _ = p6::write_chunk(&data, vital, &mut tmp);
+                    }
+                    if body.len() + tmp.len() < 1380 {
+                        body.extend_from_slice(&tmp);
+                    }
+                }
+                let announced = if kind == 7 { r.below(256) as u8 } else { n as u8 };
+                if kind == 7 && r.chance(1, 3) && !body.is_empty() {
+                    let k = r.usize_below(body.len());
+                    body.truncate(k);
+                }
+                let ack = ack_any(self, &mut r);
+                let resend = r.chance(1, 3);
+                let compress = r.chance(1, 3);
+                if v7 {
+                    v7_make(if resend { 2 } else { 0 }, ack, announced, tok.unwrap(), &body, compress)
+                } else {
+                    v6_make(if resend { 4 } else { 0 }, ack, announced, &body, tok, compress)
+                }
+            }
+            2 | 3 => {
+                let mut base = match inflight(self, &mut r, peer) {
+                    Some(d) => d,
+                    None => return None,
+                };
+                if kind == 3 {
+                    let n = r.usize_below(base.len() + 1);
+                    base.truncate(n);
+                    // 0.6 carries the token at the end: put it back so that the datagram stays authenticated
+                    if !v7 {
+                        if let (Some(t), false) = (tok, base.len() >= 3 && base[0] & 0x80 != 0) {
+                            if base.len() >= 3 && base[0] & 0x20 == 0 {
+                                base.extend_from_slice(&t);
+                            }
+                        }
+                    }
+                } else {
+                    for _ in 0..1 + r.usize_below(3) {
+                        if base.is_empty() {
+                            break;
+                        }
+                        let i = if r.chance(1, 2) { r.usize_below(base.len().min(3)) } else { r.usize_below(base.len()) };
+                        if v7 && (3..7).contains(&i) {
+                            continue;
+                        }
+                        if !v7 && tok.is_some() && base[0] & 0x80 == 0 && i + 4 >= base.len() {
+                            continue;
+                        }
+                        base[i] ^= 1 << r.below(8);
+                    }
+                }
+                base
+            }
+            4 => {
+                let n = r.usize_below(80);
+                let body = r.bytes(n);
+                let flags = r.below(16) as u8;
+                let ack = r.below(1024) as u16;
+                if v7 {
+                    v7_make(flags & !0x8, ack, r.below(256) as u8, tok.unwrap(), &body, r.chance(1, 4))
+                } else {
+                    v6_make(flags & !0x2, ack, r.below(256) as u8, &body, tok, r.chance(1, 4))
+                }
+            }
+            5 => {
+                let n = *r.pick(&[0usize, 1, 8, 100, 1300]);
+                let n = r.usize_below(n + 1);
+                let body = r.bytes(n);
+                if v7 {
+                    // connless 0.7: version 1, own token, their token
+                    let own = self.s[ep].conn.expected_token().unwrap_or([0xff; 4]);
+                    let their = self.s[ep].conn.their_token().unwrap_or([0xff; 4]);
+                    let (a, b) = match r.below(4) {
+                        0 => (own, their),
+                        1 => (their, own),
+                        2 => (own, [0xff; 4]),
+                        _ => ([0xff; 4], their),
+                    };
+                    let mut v = vec![0x20 | if r.chance(1, 8) { r.below(4) as u8 } else { 1 }];
+                    v.extend_from_slice(&a);
+                    v.extend_from_slice(&b);
+                    v.extend_from_slice(&body);
+                    v
+                } else {
+                    let mut v = vec![0xffu8; 6];
+                    if r.chance(1, 4) {
+                        v[0] = 0x20 | r.below(16) as u8;
+                    }
+                    v.extend_from_slice(&body);
+                    v
+                }
+            }
+            _ => {
+                // reflection: something this endpoint sent itself comes back
+                match inflight(self, &mut r, ep) {
+                    Some(d) => d,
+                    None => return None,
+                }
+            }
+        };
+        let state = self.s[ep].conn.state_name();
+        ctx.count(match state {
+            "Online" => "probe_forge_state_online",
+            "Unconnected" => "probe_forge_state_unconnected",
+            _ => "probe_forge_state_handshake",
+        });
+        ctx.oracle_event = true;
+        ctx.fault_inflight = true;
+        ctx.count("fault_forged_datagram");
+        ctx.logf(|| format!("forger feeds {} (state {}, token {:02x?}) {} bytes: {}", ["A", "B"][ep], state, tok, d.len(), hex(&d)));
+        self.forged = true;
+        self.feed(ctx, ep, &d)
     }
 
     pub(super) fn inject(&mut self, ctx: &mut Ctx, ep: usize, kind: u8, salt: u64) -> Option<Violation> {
